@@ -1024,7 +1024,7 @@ static std::vector<std::string> split_lines(const std::string &s) {
 }
 
 static Plan minimise(Plan p, const Verdict &want) {
-	const int BUDGET = 1500;
+	const int BUDGET = under_memcheck() ? 150 : 1500;  // a run under valgrind costs about thirty native ones
 	auto attempt = [&](const Plan &t) {
 		if (g_shrink_runs >= BUDGET || g_shrink_steps >= SHRINK_STEP_BUDGET) return false;
 		if (still(t, want)) { p = t; return true; }
